@@ -56,6 +56,16 @@ def _configs(ctx):
         ("DQN", "CartPole", DQN(buffer_size=64, learning_starts=8, num_envs=1, num_steps=4, batch_size=4,
                                 target_update_interval=2), CartPole(), q, 16 + 3),
     ]
+    # an environment with host-side state (a Gymnasium simulator behind GymToLeraxEnv): the SAME env object is
+    # used for every run below, so a run must neither depend on what earlier runs left in the simulator
+    # nor be disturbed by an observer touching it (e.g. the logging callback's video recorder)
+    try:
+        import gymnasium
+        from lerax.compatibility.gym import GymToLeraxEnv
+        cfgs.append(("A2C", "GymToLerax(CartPole-v1)", A2C(num_envs=1, num_steps=8),
+                     GymToLeraxEnv(gymnasium.make("CartPole-v1")), ac, 480 + 3))
+    except Exception as e:  # noqa: BLE001
+        ctx.note(f"Gymnasium adapter configuration skipped: {type(e).__name__}: {e}"[:160])
     if not ctx.quick:
         cfgs += [
             ("A2C", "Tabular", A2C(num_envs=2, num_steps=5), tab, ac, 30),
@@ -107,6 +117,10 @@ def run(ctx):
                                                  ProgressBarCallback()]
                 if ctx.quick:
                     cbs.pop("observer_logging_tensorboard")
+                if envname.startswith("GymToLerax"):
+                    # video recording requested for an environment lerax cannot render: still a passive observer
+                    cbs["observer_logging_with_video_interval"] = LoggingCallback(
+                        RecordingBackend(), name="verif3", video_interval=1, video_num_steps=16)
                 for tag, cb in cbs.items():
                     out = algo.learn(env, policy, total, key=k0, callback=cb)
                     jax.effects_barrier()
